@@ -34,20 +34,37 @@ LocalOf(a, alt) == IF a.k = "image" THEN (IF alt = Absent THEN EmptyM ELSE M1("i
 VARIABLE cs
 Init == \E i \in 1..Len(Attrs) : cs = [seed |-> i]
 IsSeed == "seed" \in DOMAIN cs
-Universe(a, alts, place, d) ==
-  [n \in 1..d |-> [file |-> place[n], name |-> Names[n], ext |-> (IF n < d THEN n + 1 ELSE 0),
+\* same: the base in another file carries the same service name as the service extending it
+Universe(a, alts, place, d, same) ==
+  [n \in 1..d |-> [file |-> place[n], name |-> (IF same /\ n = 2 /\ place[2] # place[1] THEN Names[1] ELSE Names[n]), ext |-> (IF n < d THEN n + 1 ELSE 0),
                    local |-> (IF n = d /\ a.k # "image" THEN Put(LocalOf(a, alts[n]), "image", S("base")) ELSE LocalOf(a, alts[n]))]]
 Next == /\ IsSeed
         /\ LET a == Attrs[cs.seed] IN
-           \E d \in 2..Depth : \E place \in Placements : \E alts \in [1..d -> a.alts \cup {Absent}] :
-              LET U == Universe(a, alts, place, d)
+           \E d \in 2..Depth : \E place \in Placements : \E alts \in [1..d -> a.alts \cup {Absent}] : \E same \in BOOLEAN :
+              LET U == Universe(a, alts, place, d, same)
                   r == [n \in {m \in 1..d : place[m] = 1} |-> Resolve(U, Dirs, n, {})] IN
               /\ \E n \in 1..d : alts[n] # Absent
+              /\ (same => (place[2] # place[1] /\ d = 3))
               \* the same env file named at two levels of a chain: where the single entry sits (and so which file's values win)
               \* differs between same-file and other-file bases - the statement does not fix it; kept out of the enforced domain
               /\ (a.n = "env_file" => \A i, j \in 1..d : (i # j /\ alts[i] # Absent) => alts[i] # alts[j])
               /\ ~HasTag(alts[d], "reset")    \* a reset with nothing below it is not a chain case
-              /\ cs' = [kind |-> "chain", attr |-> a.n, depth |-> d, place |-> SubSeq(place, 1, d), nodes |-> U, target |-> r]
-Spec == Init /\ [][Next]_cs
+              /\ cs' = [kind |-> (IF same THEN "chain-same-name" ELSE "chain"), attr |-> a.n, depth |-> d, place |-> SubSeq(place, 1, d), nodes |-> U, target |-> r]
+\* a fork: left (a) and right (d) both extend mid (b), which extends root (c); all in the main file; an appended attribute
+ForkAttrs == <<
+  [n |-> "security_opt", k |-> "security_opt", alts |-> {L(<<S("label:r1"), S("label:r2")>>), Sq1(S("label:m")), Sq1(S("label:l")), Sq1(S("label:x"))}],
+  [n |-> "cap_add", k |-> "cap_add", alts |-> {L(<<S("R1"), S("R2")>>), Sq1(S("M")), Sq1(S("L")), Sq1(S("X"))}],
+  [n |-> "volumes_from", k |-> "volumes_from", alts |-> {L(<<S("container:r1"), S("container:r2")>>), Sq1(S("container:m")), Sq1(S("container:l")), Sq1(S("container:x"))}] >>
+ForkNames == <<"a", "b", "c", "d">>
+ForkNext ==
+  /\ IsSeed /\ cs.seed <= Len(ForkAttrs)
+  /\ LET a == ForkAttrs[cs.seed] IN
+     \E alts \in [1..4 -> a.alts \cup {Absent}] :
+        LET U == [n \in 1..4 |-> [file |-> 1, name |-> ForkNames[n], ext |-> (CASE n = 1 -> 2 [] n = 2 -> 3 [] n = 3 -> 0 [] n = 4 -> 2),
+                                   local |-> (IF n = 3 THEN Put(LocalOf(a, alts[n]), "image", S("base")) ELSE LocalOf(a, alts[n]))]]
+            r == [n \in 1..4 |-> Resolve(U, Dirs, n, {})] IN
+        /\ alts[1] # Absent /\ alts[4] # Absent /\ alts[1] # alts[4]
+        /\ cs' = [kind |-> "fork", attr |-> a.n, depth |-> 4, place |-> <<1, 1, 1, 1>>, nodes |-> U, target |-> r]
+Spec == Init /\ [][Next \/ ForkNext]_cs
 ChainLaws == IsSeed \/ \A n \in DOMAIN cs.target : ~IsErrV(cs.target[n])
 =============================================================================
